@@ -35,7 +35,7 @@ VARIABLES s,      \* session being consumed (0 before the first)
           g,      \* next unconsumed provider seq
           pan     \* the panicking calls of the session, <<thread, phase, k>> (computed once when the session is opened)
 tvars == <<s, idx, g, pan, holder, poisoned, cache>>
-modelRest == <<pc, failed, order, n, cl, res, lk, afterFail, slot>>   \* PlusCal bookkeeping, not used at this grain
+modelRest == <<pc, failed, panicked, order, n, cl, res, lk, afterFail, slot>>   \* PlusCal bookkeeping, not used at this grain
 
 S == Rec[s]
 NT == Len(S.thr)
